@@ -51,6 +51,10 @@ impl ExplorationContext {
 //@ end
     #[verifier::external_body]
     pub fn pid_on_focus(&self) -> (r: Pid) ensures r == self.focus_location.pid { unimplemented!() }
+    #[verifier::external_body]
+    pub fn frame_num(&self) -> (r: u32) ensures r == self.focus_frame { unimplemented!() }
+    #[verifier::external_body]
+    pub fn location(&self) -> (r: Location) ensures r == self.focus_location { unimplemented!() }
 }
 impl Debugger {
     #[verifier::external_body]
